@@ -15,12 +15,13 @@ RULE = ("Mode G: every validated model of the raw families and every connective 
 ASSUMPTIONS = [
     "filter errors()==[]; models with a pre-fixed compound are outside the statement",
     "solver-safe is judged on the real object structure (so Not/Imply/XNor results are judged after the inward push)",
+    "formulas written only with positive connectives, Imply, Not and XNor over safe arguments (AtMost/Xor only over leaves) must come out solver-safe: the statement's 'negation pushes inwards to re-establish this form'",
 ]
 BOUNDS = {
     "quick": "abc|abt explicit, abc generated, diamonds explicit, conn2/abc generated, closure/ab generated",
     "thorough": "quick + abct, abcdt, abu w3, d3 chains, diamonds generated, conn2/abcd, closure/abc",
 }
-QUICK = ["abc/explicit", "abt/explicit", "abc/generated", "diamond/explicit", "conn2/abc/generated", "closure/ab/generated"]
+QUICK = ["abc/explicit", "abt/explicit", "abc/generated", "diamond/explicit", "conn2/abc/generated", "closure/ab/generated", "mix3/abtn/explicit"]
 THOROUGH = QUICK + ["abct/explicit", "abcdt/explicit", "abu/explicit/w3", "d3/abc/explicit", "d3/abt/generated", "diamond/generated",
                     "conn2/abcd/generated", "closure/abc/generated", "abtn/explicit"]
 MAXCOLS = 14
@@ -34,6 +35,25 @@ def run_shard(desc, acc, tier):
     fam, lo, hi = desc
     for k, m in enumerate(families.family(fam)[lo:hi], start=lo):
         check_model(m, acc, fam, k)
+
+
+def expected_safe(a):
+    """Solver-safe form that the constructors promise to (re-)establish, judged on the formula as written: positive connectives,
+    implications, negations and XNor over safe arguments are safe (negation pushes inwards); AtMost / Xor / negatively signed AtLeast
+    are safe only over leaves.  None = no expectation."""
+    if a[0] == 'L':
+        return True
+    if a[0] == 'N':
+        return ref.solver_safe_ast(a)
+    _, kind, i, args, extra = a
+    sub = [expected_safe(x) for x in args]
+    if any(x is None for x in sub):
+        return None
+    if kind in ('AtMost', 'Xor', 'ExactlyOne') or (kind == 'AtLeast' and isinstance(extra, tuple) and extra[1] < 0):
+        return True if all(x[0] == 'L' for x in args) else None
+    if kind == 'AtLeast' and not isinstance(extra, tuple) and extra < 1:
+        return None
+    return True if all(sub) else None
 
 
 def check_model(m, acc, fam, k):
@@ -78,6 +98,10 @@ def check_model(m, acc, fam, k):
     feas_parts = set(map(tuple, leafpart[feas].tolist()))
     safe = solver_safe_obj(obj)
     acc.hist("solver_safe", safe)
+    if m[0] == 'C' and expected_safe(m) and not safe:
+        acc.violation(None, case, {"what": "constructors did not establish solver-safe form for a formula whose negations should have been pushed inwards",
+                                   "model": show(m), "text": obj.to_text().split("\n")})
+        return
     if feas.any() and (~feas).any():
         acc.nontriv(m)
     # (a) nothing lost
